@@ -80,46 +80,104 @@ def filterM' {α : Type} (f : α → Except Err Bool) : List α → Except Err (
       | .error e => .error e
       | .ok ys => .ok (if b then x :: ys else ys)
 
-/-- `list(iterable)`: fully iterate, returning the rows and the extended leaf-iteration log. -/
-def iterate (σ : Leaves) : Iterable → List Nat → Except Err (List Row × List Nat)
-  | .seq rows, log => .ok (rows, log)
-  | .mapping _ rows, log => .ok (rows, log)
-  | .leafRef oid, log => .ok (σ oid, oid :: log)
-  | .calc t tag e, log =>
-    match iterate σ t log with
+/-- All rows of an iterable (`list(iterable)` without the bookkeeping); `error` = an exception
+raised while a row is computed. -/
+def Iterable.rows (σ : Leaves) : Iterable → Except Err (List Row)
+  | .seq rows => .ok rows
+  | .mapping _ rows => .ok rows
+  | .leafRef oid => .ok (σ oid)
+  | .calc t tag e =>
+    match Iterable.rows σ t with
     | .error err => .error err
-    | .ok (rows, log') =>
-      match mapM' (fun r => match e.eval r with
-                            | some v => Except.ok (r.set tag v)
-                            | none => .error .key) rows with
-      | .error err => .error err
-      | .ok rows' => .ok (rows', log')
-  | .proj t c, log =>
-    match iterate σ t log with
+    | .ok rows =>
+      mapM' (fun r => match e.eval r with
+                      | some v => Except.ok (r.set tag v)
+                      | none => .error .key) rows
+  | .proj t c =>
+    match Iterable.rows σ t with
     | .error err => .error err
-    | .ok (rows, log') =>
-      if rows.all (fun r => c.all (fun k => (r k).isSome)) then .ok (rows.map (·.restrict c), log')
+    | .ok rows =>
+      if rows.all (fun r => c.all (fun k => (r k).isSome)) then .ok (rows.map (·.restrict c))
       else .error .key
-  | .sel t p, log =>
-    match iterate σ t log with
+  | .sel t p =>
+    match Iterable.rows σ t with
     | .error err => .error err
-    | .ok (rows, log') =>
-      match filterM' (fun r => match p.eval r with
-                               | some b => Except.ok b
-                               | none => .error .key) rows with
+    | .ok rows =>
+      filterM' (fun r => match p.eval r with
+                         | some b => Except.ok b
+                         | none => .error .key) rows
+  | .slice t s e =>
+    match Iterable.rows σ t with
+    | .error err => .error err
+    | .ok rows => .ok (sliceEnum s e 0 rows)
+  | .chain a b =>
+    match Iterable.rows σ a with
+    | .error err => .error err
+    | .ok ra =>
+      match Iterable.rows σ b with
       | .error err => .error err
-      | .ok rows' => .ok (rows', log')
-  | .slice t s e, log =>
-    match iterate σ t log with
-    | .error err => .error err
-    | .ok (rows, log') => .ok (sliceEnum s e 0 rows, log')
-  | .chain a b, log =>
-    match iterate σ a log with
-    | .error err => .error err
-    | .ok (ra, log') =>
-      match iterate σ b log' with
-      | .error err => .error err
-      | .ok (rb, log'') => .ok (ra ++ rb, log'')
+      | .ok rb => .ok (ra ++ rb)
+
+def Iterable.rowsD (σ : Leaves) (it : Iterable) : List Row :=
+  match it.rows σ with
+  | .ok r => r
+  | .error _ => []
+
+/-- Number of input elements a filter consumes to deliver `d` outputs (`none` = everything). -/
+def pullsForMatches (flags : List Bool) (d : Nat) : Option Nat :=
+  let rec go (fl : List Bool) (need : Nat) (seen : Nat) : Option Nat :=
+    match need with
+    | 0 => some seen
+    | need'+1 =>
+      match fl with
+      | [] => none
+      | true :: rest => if need' = 0 then some (seen + 1) else go rest need' (seen + 1)
+      | false :: rest => go rest (need'+1) (seen + 1)
+  go flags d 0
+
+/-- The leaf-payload iterations that are *started* by `iter(it)` followed by `d` calls of
+`next()` (`none` = until exhaustion, i.e. `list(it)`).  Generator expressions call `iter()` on
+their source immediately; generator functions (`SliceRowIterable`) and `itertools.chain` only at
+the first `next()`. -/
+def Iterable.events (σ : Leaves) : Iterable → Option Nat → List Nat
+  | .seq _, _ => []
+  | .mapping _ _, _ => []
+  | .leafRef oid, _ => [oid]
+  | .calc t _ _, d => Iterable.events σ t d
+  | .proj t _, d => Iterable.events σ t d
+  | .sel t p, d =>
+    let flags := (t.rowsD σ).map (fun r => (p.eval r).getD false)
+    let k : Option Nat := match d with
+      | none => none
+      | some n => pullsForMatches flags n
+    Iterable.events σ t k
+  | .slice t s e, d =>
+    if d == some 0 then []
+    else
+      let src := t.rowsD σ
+      let m := (sliceEnum s e 0 src).length
+      let exhaust : Option Nat := match e with
+        | some stop => if stop < src.length then some (stop + 1) else none
+        | none => none
+      let k : Option Nat := match d with
+        | none => exhaust
+        | some n => if n ≤ m then some (s + n) else exhaust
+      Iterable.events σ t k
+  | .chain a b, d =>
+    if d == some 0 then []
+    else
+      let la := (a.rowsD σ).length
+      match d with
+      | none => Iterable.events σ a none ++ Iterable.events σ b none
+      | some n =>
+        if n ≤ la then Iterable.events σ a (some n)
+        else Iterable.events σ a none ++ Iterable.events σ b (some (n - la))
+
+/-- `list(iterable)`: fully iterate, returning the rows and the extended leaf-iteration log. -/
+def iterate (σ : Leaves) (it : Iterable) (log : List Nat) : Except Err (List Row × List Nat) :=
+  match it.rows σ with
+  | .error e => .error e
+  | .ok rows => .ok (rows, (it.events σ none).reverse ++ log)
 
 /-- Lift `iterate` into `ExecM`. -/
 def iterateM (σ : Leaves) (it : Iterable) : ExecM (List Row) := fun s =>
